@@ -768,3 +768,91 @@ Example ex_shared_buffer_duplicates :
   msg_generator N fold1 fold2 [1; 2; 3] = GenOk [1; 2; 3; 13; 10]
   /\ msg_generator_shared N fold1 fold2 [1; 2; 3] = GenOk [1; 1; 2; 3; 13; 10].
 Proof. split; reflexivity. Qed.
+
+(* ------------------------------------------------------------------ *)
+(* G.  Sequences of operations on one envelope                          *)
+(* ------------------------------------------------------------------ *)
+
+Section OpsFacts.
+  Variable hdr : Type.
+  Variable hparse : bytes -> hdr * option bytes.
+  Variable hgen : hdr -> bytes.
+  Variable hedit : N -> hdr -> option hdr.
+
+  Notation step := (step hdr hparse hgen hedit).
+  Notation effect := (effect hdr hparse hgen hedit).
+  Notation observe := (observe hdr hparse hgen hedit).
+  Notation trace := (trace hdr hparse hgen hedit).
+  Notation state_at := (state_at hdr hparse hgen hedit).
+
+  (* every observation of a sequence is the observation of that operation on the
+     envelope as the earlier operations left it - nothing else is remembered *)
+  Lemma trace_nth : forall ops e k,
+    nth_error (trace ops e) k =
+    match nth_error ops k with
+    | Some o => Some (observe o (state_at k ops e))
+    | None => None
+    end.
+  Proof.
+    induction ops as [|o ops IH]; intros e k.
+    - destruct k; reflexivity.
+    - destruct k as [|k]; cbn [Envelope.trace nth_error].
+      + reflexivity.
+      + rewrite IH. unfold Envelope.state_at. cbn [firstn fold_left]. reflexivity.
+  Qed.
+
+  Lemma flatten_reflects_current_state : forall ops e k,
+    nth_error ops k = Some OFlatten ->
+    nth_error (trace ops e) k =
+      Some (ObsFlat (hgen (e_headers (state_at k ops e))) (e_message (state_at k ops e))).
+  Proof. intros ops e k H. rewrite trace_nth, H. reflexivity. Qed.
+
+  Lemma state_at_app : forall pre l n e,
+    state_at (length pre + n) (pre ++ l) e
+    = fold_left (fun s o => effect o s) (firstn n l) (state_at (length pre) pre e).
+  Proof.
+    intros. unfold Envelope.state_at. rewrite firstn_app_2, fold_left_app, firstn_all. reflexivity.
+  Qed.
+
+  (* flatten, edit the headers in place, flatten again: the second flatten shows the edited headers *)
+  Lemma flatten_after_edit : forall pre j h' e,
+    let s := state_at (length pre) pre e in
+    hedit j (e_headers s) = Some h' ->
+    nth_error (trace (pre ++ [OFlatten; OEdit j; OFlatten]) e) (length pre + 2)
+    = Some (ObsFlat (hgen h') (e_message s)).
+  Proof.
+    intros pre j h' e s H.
+    rewrite flatten_reflects_current_state.
+    2:{ rewrite nth_error_app2 by lia. replace (length pre + 2 - length pre)%nat with 2%nat by lia. reflexivity. }
+    rewrite state_at_app. fold s. cbn [firstn fold_left].
+    unfold Envelope.effect. cbn [Envelope.step fst]. rewrite H. reflexivity.
+  Qed.
+
+  (* encode_7bit() without an encoder refuses at EVERY call at which the body is 8-bit, whatever came before,
+     and leaves the envelope as it was *)
+  Lemma refusal_every_call : forall ops e k,
+    nth_error ops k = Some (OEncode None) ->
+    has_8bit (e_message (state_at k ops e)) = true ->
+    nth_error (trace ops e) k = Some ObsRefused
+    /\ effect (OEncode None) (state_at k ops e) = state_at k ops e.
+  Proof.
+    intros ops e k H H8. rewrite trace_nth, H.
+    unfold Envelope.observe, Envelope.effect. cbn [Envelope.step]. unfold encode_7bit_f.
+    assert (A : forallb is_ascii (e_message (state_at k ops e)) = false) by (rewrite ascii_8bit, H8; reflexivity).
+    rewrite A. split; reflexivity.
+  Qed.
+
+  (* with an encoder, a call that returns normally leaves an ASCII body or is a conversion through recode *)
+  Lemma encode_done : forall rc e e' ,
+    step (OEncode rc) e = (e', ObsDone) ->
+    (has_8bit (e_message e) = false /\ e' = e)
+    \/ (has_8bit (e_message e) = true /\ exists f d, rc = Some f /\ f (join (flatten hdr hgen e)) = Some d
+          /\ e' = parse hdr hparse (e_sender e) (e_rcpts e) d).
+  Proof.
+    intros rc e e' H. cbn [Envelope.step] in H. unfold encode_7bit_f in H.
+    rewrite ascii_8bit in H. destruct (has_8bit (e_message e)) eqn:A; cbn [negb] in H.
+    - right. destruct rc as [f|]; [|discriminate]. destruct (f (join (flatten hdr hgen e))) as [d|] eqn:F; [|discriminate].
+      inversion H; subst. split; [reflexivity|]. exists f, d. auto.
+    - left. inversion H; subst. auto.
+  Qed.
+End OpsFacts.
